@@ -42,7 +42,7 @@ func (tx *Tx) getByHintBPTSparseIdxInMem(bucket string, key []byte) (e *Entry, e
 				return nil, err
 			}
 
-			return df.ReadAt(int(r.H.dataPos))
+			return df.ReadRecordAt(int(r.H.dataPos))
 		}
 
 		return nil, ErrNotFoundKey
@@ -166,7 +166,7 @@ func (tx *Tx) Get(bucket string, key []byte) (e *Entry, err error) {
 					return nil, err
 				}
 
-				item, err := df.ReadAt(int(r.H.dataPos))
+				item, err := df.ReadRecordAt(int(r.H.dataPos))
 				if err != nil {
 					return nil, fmt.Errorf("read err. pos %d, key %s, err %s", r.H.dataPos, string(key), err)
 				}
@@ -231,7 +231,7 @@ func (tx *Tx) RangeScan(bucket string, start, end []byte) (es Entries, err error
 					df.rwManager.Close()
 					return nil, err
 				}
-				if item, err := df.ReadAt(int(r.H.dataPos)); err == nil {
+				if item, err := df.ReadRecordAt(int(r.H.dataPos)); err == nil {
 					es = append(es, item)
 				} else {
 					df.rwManager.Close()
@@ -414,7 +414,7 @@ func (tx *Tx) getStartIndexForFindPrefix(fID int64, curr *BinaryNode, prefix []b
 			return 0, err
 		}
 
-		entry, err = df.ReadAt(int(curr.Keys[j]))
+		entry, err = df.ReadRecordAt(int(curr.Keys[j]))
 		df.rwManager.Close()
 		if err != nil {
 			return 0, err
@@ -463,7 +463,7 @@ func (tx *Tx) findPrefixOnDisk(bucket string, fID, rootOff int64, prefix, newPre
 				return nil, off, err
 			}
 
-			entry, err = df.ReadAt(int(curr.Keys[i]))
+			entry, err = df.ReadRecordAt(int(curr.Keys[i]))
 			df.rwManager.Close()
 			if err != nil {
 				return nil, off, err
@@ -538,7 +538,7 @@ func (tx *Tx) findPrefixSearchOnDisk(bucket string, fID, rootOff int64, prefix [
 				return nil, off, err
 			}
 
-			entry, err = df.ReadAt(int(curr.Keys[i]))
+			entry, err = df.ReadRecordAt(int(curr.Keys[i]))
 			df.rwManager.Close()
 			if err != nil {
 				return nil, off, err
@@ -588,7 +588,7 @@ func (tx *Tx) getStartIndexForFindRange(fID int64, curr *BinaryNode, start, newS
 			return 0, err
 		}
 
-		entry, err = df.ReadAt(int(curr.Keys[j]))
+		entry, err = df.ReadRecordAt(int(curr.Keys[j]))
 		df.rwManager.Close()
 
 		if err != nil {
@@ -629,7 +629,7 @@ func (tx *Tx) findRangeOnDisk(fID, rootOff int64, start, end, newStart, newEnd [
 				return nil, err
 			}
 
-			entry, err = df.ReadAt(int(curr.Keys[i]))
+			entry, err = df.ReadRecordAt(int(curr.Keys[i]))
 			df.rwManager.Close()
 
 			if err != nil {
@@ -669,7 +669,7 @@ func (tx *Tx) readActiveRecords(records Records) (es Entries, err error) {
 		if err != nil {
 			return nil, err
 		}
-		item, err := df.ReadAt(int(r.H.dataPos))
+		item, err := df.ReadRecordAt(int(r.H.dataPos))
 		df.rwManager.Close()
 		if err != nil {
 			return nil, fmt.Errorf("HintIdx r.Hi.dataPos %d, err %s", r.H.dataPos, err)
@@ -855,7 +855,7 @@ func (tx *Tx) getHintIdxDataItemsWrapper(records Records, limitNum int, es Entri
 				if err != nil {
 					return nil, err
 				}
-				if item, err := df.ReadAt(int(r.H.dataPos)); err == nil {
+				if item, err := df.ReadRecordAt(int(r.H.dataPos)); err == nil {
 					es = append(es, item)
 				} else {
 					df.rwManager.Close()
@@ -945,7 +945,7 @@ func (tx *Tx) FindOnDisk(fID uint64, rootOff uint64, key, newKey []byte) (entry 
 			return nil, err
 		}
 
-		entry, err = df.ReadAt(int(bnLeaf.Keys[i]))
+		entry, err = df.ReadRecordAt(int(bnLeaf.Keys[i]))
 		df.rwManager.Close()
 
 		if err != nil {
@@ -984,7 +984,7 @@ func (tx *Tx) FindLeafOnDisk(fID int64, rootOff int64, key, newKey []byte) (bn *
 				return nil, err
 			}
 
-			item, err := df.ReadAt(int(curr.Keys[i]))
+			item, err := df.ReadRecordAt(int(curr.Keys[i]))
 			df.rwManager.Close()
 
 			if err != nil {
